@@ -81,4 +81,27 @@ var specs = map[string]*propSpec{
 		Floor:       map[string]int{"quick": 300, "thorough": 1000},
 		Phases:      mainPhase,
 	},
+	"C15": {
+		ID: "C15",
+		Rule: "case idx -> battle of 1..4 warriors (generator of C02, M<=48, 1/3 with limits, 1/3 of the placements at offsets >= M, 1/5 with a Reset+respawn in the middle) with my own Reporter and the bundled StateRecorder attached. " +
+			"The report-stream monitor cuts the stream into tasks at TaskPop, snapshots the core at every TaskPop and checks per task: address < M and warrior index valid on every report; TaskPop (warrior,pc) == reference executed task and the core at TaskPop == reference core before the task; " +
+			"{cells changed} subset of {cells named by write/inc/dec reports of that warrior in that task} subset of {cells the reference semantics may touch}; task-terminate / warrior-terminate reports <=> reference deaths. " +
+			"After every cycle the StateRecorder is compared cell by cell with an independent fold of the same stream and with the last-toucher fold of the reference event stream (owner exact, kind among the kinds of that task; a touch that left the content unchanged is optional); after Reset every address must be empty. " +
+			"non-trivial = task with a pre-decrement/post-increment side effect on a cell other than the write target; distinct by (opcode, A-mode, B-mode)",
+		Assumptions: append([]string{
+			"the order of reports inside one task is not prescribed (only that TaskPop comes first); read reports are not checked"}, commonAssumptions...),
+		Floor:  map[string]int{"quick": 300, "thorough": 800},
+		Phases: mainPhase,
+	},
+	"C11": {
+		ID: "C11",
+		Rule: "case idx -> step case of C01 (form at PC enumerated over all 7616, boundary-biased fields incl. L/2, L/2+1 for L in {R,W}), 7/8 with R<M or W<M, 1/8 with R=W=M; each of k in 1..8 steps is executed on a fresh real simulator and observed from outside: " +
+			"(a) every cell that differs after the step is within floor(W/2) of the PC and every queued successor other than PC+1/PC+2 within floor(R/2); (b) non-interference twin: a second real simulator whose core differs only at distance > max(R/2,W/2) from the PC (all such cells re-randomised) " +
+			"must end with the same cells inside the window, the same queue, and must not touch anything outside it — this makes operand fetches observable at the API boundary; (c) with R=W=M the step equals the reference step computed with folding removed. " +
+			"non-trivial = step with a write at distance >= 1 or a non-sequential successor; distinct by (form, R<M or not, W<M or not)",
+		Assumptions: append([]string{
+			"the window of the twin is max(floor(R/2),floor(W/2)): the draft reads the second-level write pointer and the pre-decrement/post-increment target through the write-limit-folded pointer, so cells up to floor(W/2) are legitimately read when W>R"}, commonAssumptions...),
+		Floor:  map[string]int{"quick": 10000, "thorough": 20000},
+		Phases: mainPhase,
+	},
 }
